@@ -170,52 +170,62 @@ def _analyse(tier, seed):
                     if not n:
                         break
                 reqs.append({"id": len(reqs), "ty": path, "op": "ld", "input": pre + cs["in"], "_k": f"{ci}|ld"})
+    def responses(feat):
         # responses are a function of (worker binary built from the working tree, requests): cached on exactly that
-        key = gencheck.file_hash(gen.gworker()) + "-" + hashlib.sha256(json.dumps(reqs).encode()).hexdigest()[:20]
-        rp = os.path.join(c.OUT, "cache", f"pbresults-{tier}-{key}.json")
+        key = gencheck.file_hash(gen.gworker(feat)) + "-" + hashlib.sha256(json.dumps(reqs).encode()).hexdigest()[:20]
+        rp = os.path.join(c.OUT, "cache", f"pbresults-{tier}-{'on-' if feat else ''}{key}.json")
         if os.path.exists(rp):
             res = json.load(open(rp))
         else:
-            out = gen.run_worker(reqs, tag="pb")
+            out = gen.run_worker(reqs, tag="pb", feat=feat)
             res = {r["_k"]: out.get(r["id"], {"ok": False, "err": "harness: no response", "tool_error": True}) for r in reqs}
             json.dump(res, open(rp, "w"))
+        return res
+
+    gen.build_feature_worker()
     finds, jobs, meta = [], [], {}
-    for k, r in res.items():
-        ci, op = k.split("|")
-        cs = cases[int(ci)]
-        if r.get("tool_error"):
-            raise c.ToolError("worker: " + r.get("err", ""))
-        tags = {"canon": {"C05"}, "alt": {"C06"}, "merge": {"C18"}, "unknown": {"C18"}}[cs["kind"]]
-        if op == "ld":
-            tags = {"C05"}
-        cls = {"kind": cs["kind"], "how": re.sub(r"\d+$", "", cs["how"]), "op": op, "msg": re.sub(r"\d+$", "", cs["ty"])}
-        replay = {"schema": cs["sid"], "message": cs["ty"], "case": cs["kind"] + "/" + cs["how"], "op": op, "input": cs["in"], "a": cs["a"], "b": cs["b"],
-                  "reference_encoding_of_expected_value": cs["ref"], "observed": {kk: vv for kk, vv in r.items() if kk != "alloc"}}
-        if r.get("crash") or r.get("panic"):
-            finds.append((tags | {"C10"}, dict(cls, check="crash" if r.get("crash") else "panic"), replay))
-            continue
-        if not r.get("ok"):
-            finds.append((tags, dict(cls, check="rejects-valid"), replay))
-            continue
-        if r["size"] != len(r["out"]):
-            finds.append(({"C05"}, dict(cls, check="encoded_len"), replay))
-        if not r.get("redecode_eq", True):
-            finds.append((tags | {"C05"}, dict(cls, check="redecode"), replay))
-        if not r.get("ld_ok", True):
-            finds.append(({"C05"}, dict(cls, check="length-delimited"), replay))
-        bare = cs["sid"] == "pbk" and cs["ty"].endswith("Value")      # wrapper messages are bare Rust scalars: no field names in Debug
-        if cs["kind"] == "canon" and op == "decode" and r.get("dbg") and not bare:
-            bad_fields = held_values_mismatch(pss, cs, r["dbg"])
-            for fname, fk, want in bad_fields:
-                finds.append(({"C06", "C05"}, dict(cls, check="held-value", scalar=fk), dict(replay, field=fname, expected_number=want, debug=r["dbg"][:600])))
-        jid = len(jobs)
-        jobs.append({"id": jid, "sid": cs["sid"], "ty": cs["ty"], "ref": cs["ref"], "out": r["out"]})
-        # the bytes pilota produced are themselves judged by the reference decoder: C06 (pilota -> reference)
-        meta[jid] = (tags | ({"C06"} if cs["kind"] == "canon" else set()), dict(cls, check="value"), replay)
+    nexec = 0
+    for feat in (False, True):
+        res = responses(feat)
+        nexec += len(res)
+        for k, r in res.items():
+            ci, op = k.split("|")
+            cs = cases[int(ci)]
+            if r.get("tool_error"):
+                raise c.ToolError("worker: " + r.get("err", ""))
+            tags = {"canon": {"C05"}, "alt": {"C06"}, "merge": {"C18"}, "unknown": {"C18"}}[cs["kind"]]
+            if op == "ld":
+                tags = {"C05"}
+            cls = {"kind": cs["kind"], "how": re.sub(r"\d+$", "", cs["how"]), "op": op, "msg": re.sub(r"\d+$", "", cs["ty"])}
+            if feat:
+                cls["feature"] = "pb-encode-default-value"
+            replay = {"schema": cs["sid"], "message": cs["ty"], "case": cs["kind"] + "/" + cs["how"], "op": op, "input": cs["in"], "a": cs["a"], "b": cs["b"],
+                      "reference_encoding_of_expected_value": cs["ref"], "observed": {kk: vv for kk, vv in r.items() if kk != "alloc"}, "pilota_features": ["pb-encode-default-value"] if feat else []}
+            if r.get("crash") or r.get("panic"):
+                finds.append((tags | {"C10"}, dict(cls, check="crash" if r.get("crash") else "panic"), replay))
+                continue
+            if not r.get("ok"):
+                finds.append((tags, dict(cls, check="rejects-valid"), replay))
+                continue
+            if r["size"] != len(r["out"]):
+                finds.append(({"C05"}, dict(cls, check="encoded_len"), replay))
+            if not r.get("redecode_eq", True):
+                finds.append((tags | {"C05"}, dict(cls, check="redecode"), replay))
+            if not r.get("ld_ok", True):
+                finds.append(({"C05"}, dict(cls, check="length-delimited"), replay))
+            bare = cs["sid"] == "pbk" and cs["ty"].endswith("Value")      # wrapper messages are bare Rust scalars: no field names in Debug
+            if cs["kind"] == "canon" and op == "decode" and r.get("dbg") and not bare:
+                bad_fields = held_values_mismatch(pss, cs, r["dbg"])
+                for fname, fk, want in bad_fields:
+                    finds.append(({"C06", "C05"}, dict(cls, check="held-value", scalar=fk), dict(replay, field=fname, expected_number=want, debug=r["dbg"][:600])))
+            jid = len(jobs)
+            jobs.append({"id": jid, "sid": cs["sid"], "ty": cs["ty"], "ref": cs["ref"], "out": r["out"]})
+            # the bytes pilota produced are themselves judged by the reference decoder: C06 (pilota -> reference)
+            meta[jid] = (tags | ({"C06"} if cs["kind"] == "canon" else set()), dict(cls, check="value"), replay)
     bad, njudged = judge(jobs, sp)
     for jid in sorted(bad):
         finds.append(meta[jid])
-    cov = {"cases": len(cases), "executions": len(res), "judged_by_tlc": njudged, "schemas": len(pss),
+    cov = {"cases": len(cases), "executions": nexec, "configurations": ["default features", "pb-encode-default-value"], "judged_by_tlc": njudged, "schemas": len(pss),
            "messages": sum(len(s["messages"]) for s in pss), "tlc_case_generation": cst}
     return finds, cov, cases, pss, punits, sp
 
